@@ -147,9 +147,9 @@ def oblige(st, name, goal, props=None, witness=None, kind='goal', replay=None):
     w = dict(st.ghost.get('__witness', {})) if isinstance(st.ghost.get('__witness'), dict) else {}
     if witness: w.update(witness)
     OBL.append(Obl(name, props, list(st.pc) + list(st.facts), goal, w, kind, replay if replay is not None else DEFAULT_REPLAY.get('replay')))
-def reach(st, name, props=None):
+def reach(st, name, props=None, witness=None, replay=None):
     """vacuity guard: the path reaching this point must be satisfiable (recorded as a must-fail obligation)."""
-    oblige(st, name, BoolVal(False), props=props or list(DEFAULT_PROPS), kind='mustfail')
+    oblige(st, name, BoolVal(False), props=props or list(DEFAULT_PROPS), kind='mustfail', witness=witness, replay=replay)
 
 
 def to_val(v):
@@ -616,6 +616,9 @@ def _solve_smt2(job):
             if r3 == 'unsat': r = 'unsat'; solver = 'cvc5'
             elif r2 == 'sat': r = 'sat(candidate)'; solver = 'z3(qf)'
             elif r3 == 'sat': r = 'sat'; solver = 'cvc5'
+    if os.environ.get('PYVC_CROSS') == '1' and r == 'unsat' and not solver.startswith('cvc5'):
+        rc = _run_cvc5(full, 8000)          # thorough tier: independent second solver on every proved obligation
+        solver += '+cvc5:' + rc
     return idx, r, solver, int((time.time() - t0) * 1000)
 
 def val_to_py(m, v):
@@ -672,6 +675,11 @@ def discharge(timeout=10000, procs=16, verbose=False):
         else:
             d['status'] = {'unsat': 'proved', 'sat': 'refuted', 'sat(candidate)': 'refuted', 'unknown': 'undecided'}[r]
             if r == 'sat(candidate)': d['candidate'] = True
+        if ob.kind == 'mustfail' and d['status'] == 'reachable' and ob.witness and os.environ.get('PYVC_PATH_MODELS') == '1':
+            s = Solver(); s.set('timeout', 5000); s.add(*[h for h in ob.hyps if not is_quantifier(h)])
+            if s.check() == sat:
+                m = s.model(); d['witness'] = {kx: _model_value(m, vx) for kx, vx in ob.witness.items()}
+                if ob.replay: d['replay'] = ob.replay
         if d['status'] == 'refuted':
             # re-solve in process to obtain a model and evaluate the witness terms
             s = Solver(); s.set('timeout', timeout)
